@@ -31,7 +31,7 @@ pub trait ArgumentReader {
 pub open spec fn reader_next_post(args0: Seq<Tk>, bad0: bool, r: io::Result<Option<Argument>>, args1: Seq<Tk>, bad1: bool, failed1: bool) -> bool {
     match r {
         Ok(Some(a)) => args0.len() > 0 && arg_is(a, args0[0]) && args1 == args0.skip(1) && bad1 == bad0,
-        Ok(None) => args0.len() == 0 && !bad0,
+        Ok(None) => args0.len() == 0 && !bad0 && args1.len() == 0 && !bad1,
         Err(_) => (args0.len() == 0 && bad0) || failed1,
     }
 }
